@@ -23,6 +23,16 @@ def run_udf(udf, data, partitions=None, tiling=None, depth=1, backend=UDF.BACKEN
             kw[k] = a.data[idx] if idx is not None else a
         return _NS(**kw)
 
+    if backend not in udf.get_backends():
+        backend = UDF.BACKEND_NUMPY             # a back-end the UDF does not declare: the frames are densified before they reach it
+
+    def deliver(arr):
+        """the frame / tile as an array of the negotiated back-end"""
+        if backend == UDF.BACKEND_NUMPY:
+            return arr
+        import sparseconverter
+        return sparseconverter.for_backend(arr, backend)
+
     udf.meta = _NS(input_dtype=data.dtype, dataset_shape=Shape((n,), sig), array_backend=backend, slice=None)
     udf.params = params(None)
     decl = udf.get_result_buffers()
@@ -39,7 +49,7 @@ def run_udf(udf, data, partitions=None, tiling=None, depth=1, backend=UDF.BACKEN
             for i in part:
                 udf.params = params(i)
                 udf.results = _NS(**{k: full[k][i] for k in full})
-                udf.process_frame(data[i])
+                udf.process_frame(deliver(data[i]))
         else:
             tiles = tiling or [(0, 0, sig[0], sig[1])]
             for g in range(0, len(part), depth):
@@ -49,7 +59,7 @@ def run_udf(udf, data, partitions=None, tiling=None, depth=1, backend=UDF.BACKEN
                 udf.results = _NS(**view)
                 for (y0, x0, h, w) in tiles:
                     udf.meta.slice = TileSlice((y0, x0), (h, w))
-                    udf.process_tile(data[frames][:, y0:y0 + h, x0:x0 + w])
+                    udf.process_tile(deliver(data[frames][:, y0:y0 + h, x0:x0 + w]))
                 for k in full:
                     full[k][frames] = view[k]
     udf.params = params(None)
